@@ -237,7 +237,11 @@ def run(ctx) -> None:
     ctx.guard_as("R09.10", r01_8)  # the claims returned belong to the token that was verified
     # "plus the kid of a key picked from a key set": the key-selection rule of C14 (all routes into a set record / honour the kid)
     from .c14 import r14_2
-    ctx.guard(r14_2, "R09.8")
+    from .common import scope_of as _scope_of
+    _within = set()
+    for _n in ("encode", "decode"):
+        _within.update(_scope_of(ctx.eng, ctx.eng.entry("jwt", _n)))
+    ctx.guard(r14_2, "R09.8", _within)  # the call sites jwt.encode / jwt.decode reach
     from .c14 import r14_3
     ctx.guard_as("R09.8", r14_3)  # a key picked from a set is of the type the algorithm requires, for every registered algorithm
     # "over the JWE transport": claims of exactly the decompression limit still decode (completion gate of the bounded inflater)
